@@ -19,7 +19,7 @@ def role_variants(name):
     out.discard(name)
     return sorted(out)
 STRATA = ["named", "named", "named", "other_role", "untrusted_own", "union", "below", "type_confusion", "unknown_role",
-          "named_junk"]
+          "named_junk", "trusted_malformed"]
 
 
 def gen_case(rng, gpg=None, stratum=None):
@@ -168,6 +168,48 @@ def gen_case(rng, gpg=None, stratum=None):
         for _ in range(rng.randint(1, 4)):
             k, v = gentries.junk_pair(rng)
             untrusted["signatures"].setdefault(k, v)
+    if stratum == "trusted_malformed":
+        # the trusted side must be well formed as a whole - also in delegations for OTHER roles and in its signature map
+        sign(rng.sample(ks, rng.randint(min(t, len(ks)), len(ks))) if ks else [])
+        dd = trusted["signed"]["delegations"]
+        victim = rng.choice(list(dd))
+        how = rng.choice(["key_trailing_newline", "key_upper", "key_short", "key_space", "dup_key", "threshold_0", "threshold_str", "extra_field",
+                          "pubkeys_tuple", "del_expiration", "bad_date", "sig_value_junk", "envelope_extra", "type_unsupported", "key_mixed_case"])
+        pk = dd[victim]["pubkeys"]
+        if how.startswith("key_") and not pk:
+            pk.append(U[0].hex)
+        if how == "key_trailing_newline":
+            pk[-1] = pk[-1][:-1] + "\n"
+        elif how == "key_upper":
+            pk[-1] = pk[-1].upper()
+        elif how == "key_mixed_case":
+            pk[-1] = pk[-1][:-1].replace("a", "A", 1) + pk[-1][-1] if "a" in pk[-1] else "Ab" + pk[-1][2:]
+        elif how == "key_short":
+            pk[-1] = pk[-1][:-2]
+        elif how == "key_space":
+            pk[-1] = pk[-1][:32] + " " + pk[-1][33:]
+        elif how == "dup_key":
+            pk.append(pk[-1] if pk else U[0].hex)
+            if len(pk) == 1:
+                pk.append(pk[0])
+        elif how == "threshold_0":
+            dd[victim]["threshold"] = 0
+        elif how == "threshold_str":
+            dd[victim]["threshold"] = "1"
+        elif how == "extra_field":
+            dd[victim]["keyids"] = []
+        elif how == "pubkeys_tuple":
+            dd[victim]["pubkeys"] = {k: 1 for k in pk}
+        elif how == "del_expiration":
+            del trusted["signed"]["expiration"]
+        elif how == "bad_date":
+            trusted["signed"]["expiration"] = "2031-07-13T05:46:+5Z"
+        elif how == "sig_value_junk":
+            trusted["signatures"]["junk"] = "x"
+        elif how == "envelope_extra":
+            trusted["extra"] = 1
+        elif how == "type_unsupported":
+            trusted["signed"]["type"] = "pkg_mgr"
     items = list(untrusted["signatures"].items())
     rng.shuffle(items)
     untrusted["signatures"] = dict(items)
